@@ -5,7 +5,7 @@ from .. import lib, pdbtext as pt
 
 PID = "C09"
 TIERS = {
-    "quick":    dict(mc="MC_PdbText_4.cfg", tables=700, split=120),
+    "quick":    dict(mc="MC_PdbText_4.cfg", tables=240, split=40),
     "thorough": dict(mc="MC_PdbText_5.cfg", tables=18000, split=2500),
 }
 LEVEL = "model_checking"
@@ -16,28 +16,54 @@ def _cases(tables, paths, seed):
             for t in tables for p in paths]
 
 
+MC_RUNS = (
+    # (cfg or tier key, expect_violation, negative_control, what)
+    ("mc", None, False,
+     "write_pdb record machine (EmitModel/EmitAtom/EmitTer/EmitEndmdl/EmitEnd) + write_cif/parse_cif/parse_pdb on the 4 "
+     "paths over all small tables and value shapes; Layout80, ModelBracketing, TerAfterEveryChain, strict grammar, "
+     "read-back and FieldIdentity as invariants (Required variants)"),
+    ("MC_PdbText_asimpl_ter.cfg", "InvTerAfterEveryChain", True,
+     "as implemented: no TER before the ENDMDL of a model that is followed by another model"),
+    ("MC_PdbText_asimpl_ter_exact.cfg", None, False,
+     "as implemented writer: the deviation NoTerBeforeEndmdl (OnlyModelChangeLacksTer) describes its output exactly"),
+    ("MC_PdbText_asimpl_charge.cfg", "InvFieldIdentity", True,
+     "as implemented: write_cif copies the PDB charge text, the integer-typed column reads it as NA"),
+    ("MC_PdbText_asimpl_charge_exact.cfg", None, False,
+     "as implemented write_cif: the deviation ChargeLostOnCrossPath describes the cross paths exactly"),
+)
+ACTIONS = ("EmitModel", "EmitAtom", "EmitTer", "EmitEndmdl", "EmitEnd", "ReadPdb", "WriteCif", "ReadCif", "Finish")
+
+
+def _model_checks(t, sc):
+    """All design-level model checks, concurrently (each is its own TLC process)."""
+    from concurrent.futures import ThreadPoolExecutor
+    w = max(2, lib.NCPU // 4)
+
+    def one(spec):
+        cfg, expect, _neg, _what = spec
+        return lib.mc("MC_PdbText", t["mc"] if cfg == "mc" else cfg, sc, expect_violation=expect, workers=w)
+    with ThreadPoolExecutor(max_workers=len(MC_RUNS)) as ex:
+        return list(ex.map(one, MC_RUNS))
+
+
 def run(tier):
+    from concurrent.futures import ThreadPoolExecutor
     t = TIERS[tier]
     rep = lib.Report(PID, tier, LEVEL)
     with lib.Scratch("c09") as sc:
-        r = lib.mc("MC_PdbText", t["mc"], sc)
-        rep.add_mc(r, "write_pdb record machine + write_cif/parse_cif/parse_pdb on the 4 paths over all small tables "
-                      "and value shapes; Layout80, ModelBracketing, TerAfterEveryChain, FieldIdentity as invariants",
-                   min_actions=("EmitModel", "EmitAtom", "EmitTer", "EmitEndmdl", "EmitEnd", "ReadPdb", "WriteCif",
-                                "ReadCif", "Finish"))
-        r = lib.mc("MC_PdbText", "MC_PdbText_asimpl_ter.cfg", sc, expect_violation="InvTerAfterEveryChain")
-        rep.add_mc(r, "as implemented: no TER before ENDMDL of a non-last model", negative_control=True)
-        r = lib.mc("MC_PdbText", "MC_PdbText_asimpl_charge.cfg", sc, expect_violation="InvFieldIdentity")
-        rep.add_mc(r, "as implemented: write_cif copies the PDB charge text, the integer column reads NA",
-                   negative_control=True)
-
         K = pt.constants(sc)
         pt.CONSTS = K
         tables = pt.gen_tables(t["tables"], lib.seed(), K)
         multi = [x for x in tables if len({a["model"] for a in x["atoms"]}) > 1]
         cases = _cases(tables, pt.PATHS, lib.seed()) + _cases(multi[:t["split"]], pt.SPLITS, lib.seed())
         rec = lib.pmap(pt.record, cases)
-        res = lib.trace_validate("Trace_PdbText", "Trace_PdbText.cfg", rec, sc)
+        with ThreadPoolExecutor(max_workers=1) as bg:         # model checks run beside the trace validation
+            fut = bg.submit(_model_checks, t, sc)
+            res = lib.trace_validate("Trace_PdbText", "Trace_PdbText.cfg", rec, sc,
+                                     chunks=max(1, min(lib.NCPU, len(rec) // 130)))
+            mcs = fut.result()
+        for spec, r in zip(MC_RUNS, mcs):
+            rep.add_mc(r, spec[3], negative_control=spec[2], min_actions=() if spec[2] else ACTIONS)
         rep.add_trace(res, {c["id"]: c for c in rec}, "C09")
 
         cov = rep.cov
